@@ -500,6 +500,7 @@ func famTyped(dir string, seed int64, tier string) {
 	repP := newReport("utaps", seed, tier)
 	repP.Rule = "(target type, tokens, strict?) through TapUnmarshal with a recording tap: round-trip streams, streams into mutated targets, garbled / truncated streams, hand-made edge streams; observed = result value or (error class, first path attached to the error), and the tap log (ctx.Path, token kind, target kind); non-trivial = at least 2 taps; distinct by case text"
 	utapsW = newCaseWriter(dir, "utaps", "Corr_utaps", "utaps_case", "check_utaps", 100, repP)
+	tuplesW = newCaseWriter(dir, "tuples", "Corr_tuples", "tuple_case", "check_tuple", 150, repU)
 
 	n := 500
 	if thorough {
@@ -644,6 +645,7 @@ func famTyped(dir string, seed int64, tier string) {
 	wM.flush()
 	wU.flush()
 	utapsW.flush()
+	tuplesW.flush()
 	repM.write(dir)
 	repU.write(dir)
 	repP.write(dir)
